@@ -106,7 +106,7 @@ def build_extractor_config(flavour, cfg, files, units, bare=()):
         if f.get('flavours') and flavour not in f['flavours']:
             continue
         fcfg[fname] = {'keep_items': sorted(set(f['keep'])), 'units': [], 'drop_uses': f['drop_use'],
-                       'item_extra': f['item_extra']}
+                       'item_extra': f['item_extra'], 'lifts': f.get('lifts', [])}
     for u in active:
         if u['file'] not in fcfg:
             raise Undecided(f"unit {u['id']}: file {u['file']} has no `file` entry in the overlay")
